@@ -11,11 +11,12 @@
    Sem.run_wf inside Coq, outputs compared (harness/props/c29.py).
    C29_scatter_network_dot_partial composes the proved step models of C01 (Gather/) and C02 (Comb/): the
    token network built for a dotproduct scatter computes the spec's array under every arrival order.
-   flat/nested crossproduct networks are not stated (see the notes). *)
+   C29_scatter_network_flat_partial / _nested_partial do the same for flat_crossproduct (any n) and
+   nested_crossproduct (n = 2) on top of C02_cartesian_partial and C01_gather_depth_d_product / C01_many_keys. *)
 From Coq Require Import List Bool NArith ZArith.
 From Coq Require Import Permutation.
 From SF Require Import Base.Str Tags.Model Cwl.Sem Cwl.Ops Cwl.Proofs.
-From SF Require Gather.Model Comb.Model Comb.Proofs Comb.Flat Cwl.Network.
+From SF Require Gather.Model Gather.Proofs Comb.Model Comb.Proofs Comb.Flat Comb.Cart Cwl.Network Cwl.NetworkCart.
 Import ListNotations.
 Local Open Scope string_scope. Local Open Scope list_scope.
 
@@ -205,6 +206,89 @@ Example C29_scatter_network_example :
      ("0.6", "114"); ("0.7", "116"); ("0.8", "118"); ("0.9", "120"); ("0.10", "122"); ("0.11", "124")].
 Proof. vm_compute. repeat split; try reflexivity; discriminate. Qed.
 
+(* ---- flat_crossproduct network, n >= 1 ports, any lengths: CartesianProductCombinator (depth 1) in ANY arrival
+   order, then ONE GatherStep of depth n fed the product size token and the job outputs in ANY legal order: the
+   combinator raises nothing and the gather emits one list tagged t, in row-major order, whose payloads are jobp of
+   the rows of the SPECIFICATION's flat_crossproduct (Sem.cart cols []), tagged t.i1...in.
+   PARTIAL: pure job, scattered ports only, CartesianProductSizeTransformer / empty-scatter step not composed. *)
+Theorem C29_scatter_network_flat_partial :
+  forall (items : list string) (t : tag) (jobp : list N -> string),
+  NoDup items -> items <> [] -> t <> [] ->
+  forall (cols : list (list N)) (arr : list Comb.Flat.arv) (l1 l2 : list Gather.Model.garr) p1 p2,
+  length cols = length items ->
+  Permutation arr (Network.scols t 0 items cols) ->
+  let res := Comb.Model.run (Comb.Cart.cc items 1) Comb.Model.init_state arr in
+  Permutation (l1 ++ l2)
+    (Gather.Model.OnSize (render t) (N.of_nat (fold_right Nat.mul 1 (map (@length N) cols)))
+     :: map Gather.Model.OnElem (map (Network.exec items jobp) (concat (fst res)))) ->
+  p1 <> p2 -> (forall a, In a l2 -> Gather.Model.port_of a <> p1) ->
+  let s := Gather.Model.gather_run (length items)
+             (l1 ++ Gather.Model.OnTerm p1 Gather.Model.Completed
+                 :: l2 ++ [Gather.Model.OnTerm p2 Gather.Model.Completed]) in
+  snd res = None /\
+  Gather.Model.gout (Gather.Model.gd s) = [Gather.Model.ListTok (render t) (NetworkCart.eflat items t jobp cols)] /\
+  Gather.Model.gfinal s = Some Gather.Model.Completed /\
+  map (fun x => match x with Gather.Model.Tok _ v => v | Gather.Model.ListTok _ _ => "" end)
+      (NetworkCart.eflat items t jobp cols) = map jobp (cart cols []).
+Proof. exact NetworkCart.scatter_network_flat. Qed.
+
+(* ---- nested_crossproduct network, two scattered ports, any lengths: the same combinator, then a GatherStep of
+   depth 1 keyed t.i (fed one size token |c2| per element of the first array) and a second GatherStep of depth 1
+   keyed t (size |c1|) fed whatever the first emitted, every arrival order legal at both: the outer gather emits
+   one list tagged t of |c1| lists tagged t.i, and the payloads are exactly the spec's nested array
+   [[jobp [x; y] | y <- c2] | x <- c1].  PARTIAL: n = 2; the size tokens of the inner gather are taken as given
+   (translator._create_nested_size_tag / CloneTransformer are not modelled); pure job. *)
+Theorem C29_scatter_network_nested_partial :
+  forall (p q : string) (t : tag) (jobp : list N -> string),
+  p <> q -> t <> [] ->
+  forall (c1 c2 : list N) (arr : list Comb.Flat.arv) (l1 l2 : list Gather.Model.garr) p1 p2
+         (m1 m2 : list Gather.Model.garr) q1 q2,
+  Permutation arr (Network.scols t 0 [p; q] [c1; c2]) ->
+  let res := Comb.Model.run (Comb.Cart.cc [p; q] 1) Comb.Model.init_state arr in
+  Permutation (l1 ++ l2)
+    (NetworkCart.nsizes t c2 0 (length c1) ++
+     map Gather.Model.OnElem (map (Network.exec [p; q] jobp) (concat (fst res)))) ->
+  p1 <> p2 -> (forall a, In a l2 -> Gather.Model.port_of a <> p1) ->
+  let s_in := Gather.Model.gather_run 1
+                (l1 ++ Gather.Model.OnTerm p1 Gather.Model.Completed
+                    :: l2 ++ [Gather.Model.OnTerm p2 Gather.Model.Completed]) in
+  Permutation (m1 ++ m2)
+    (Gather.Model.OnSize (render t) (N.of_nat (length c1))
+     :: map Gather.Model.OnElem (Gather.Model.gout (Gather.Model.gd s_in))) ->
+  q1 <> q2 -> (forall a, In a m2 -> Gather.Model.port_of a <> q1) ->
+  let s_out := Gather.Model.gather_run 1
+                 (m1 ++ Gather.Model.OnTerm q1 Gather.Model.Completed
+                     :: m2 ++ [Gather.Model.OnTerm q2 Gather.Model.Completed]) in
+  snd res = None /\
+  Gather.Model.gout (Gather.Model.gd s_out)
+  = [Gather.Model.ListTok (render t)
+       (Gather.Proofs.expected_out (Gather.Proofs.inner_insts t 0 (NetworkCart.ness p q t jobp c1 c2)))] /\
+  Gather.Model.gfinal s_out = Some Gather.Model.Completed /\
+  map (map (fun x => match x with Gather.Model.Tok _ v => v | Gather.Model.ListTok _ _ => "" end))
+      (NetworkCart.ness p q t jobp c1 c2)
+  = map (fun x => map (fun y => jobp [x; y]) c2) c1.
+Proof. exact NetworkCart.scatter_network_nested2. Qed.
+
+(* 2 x 11 elements, tokens reaching the combinator and the gather(s) in reverse order *)
+Example C29_scatter_network_cart_example :
+  let items := ["a"; "b"] in
+  let cols := [[1; 2]; [10; 20; 30; 40; 50; 60; 70; 80; 90; 100; 110]]%N in
+  let jobp := fun r : list N => match r with [x; y] => Base.Dec.dec (x + y) | _ => "?" end in
+  let arr := rev (Network.scols [0%N] 0 items cols) in
+  let res := Comb.Model.run (Comb.Cart.cc items 1) Comb.Model.init_state arr in
+  let outs := map (Network.exec items jobp) (concat (fst res)) in
+  let s := Gather.Model.gather_run 2
+             (map Gather.Model.OnElem (rev outs) ++
+              [Gather.Model.OnTerm Gather.Model.ElemP Gather.Model.Completed; Gather.Model.OnSize "0" 22;
+               Gather.Model.OnTerm Gather.Model.SizeP Gather.Model.Completed]) in
+  snd res = None /\ length outs = 22 /\
+  map (fun x => match x with Gather.Model.Tok g v => (g, v) | _ => ("", "") end)
+      (match Gather.Model.gout (Gather.Model.gd s) with [Gather.Model.ListTok _ l] => firstn 2 l ++ skipn 9 (firstn 13 l) | _ => [] end)
+  = [("0.0.0", "11"); ("0.0.1", "21"); ("0.0.9", "101"); ("0.0.10", "111"); ("0.1.0", "12"); ("0.1.1", "22")] /\
+  map jobp (cart cols []) = map (fun x => match x with Gather.Model.Tok _ v => v | _ => "" end)
+                                (match Gather.Model.gout (Gather.Model.gd s) with [Gather.Model.ListTok _ l] => l | _ => [] end).
+Proof. vm_compute. repeat split; reflexivity. Qed.
+
 Print Assumptions C29_merge_nested.
 Print Assumptions C29_merge_nested_single_scalar.
 Print Assumptions C29_merge_nested_single_list_refuted.
@@ -221,3 +305,5 @@ Print Assumptions C29_empty_scatter_dot_partial.
 Print Assumptions C29_empty_scatter_dot_refuted.
 Print Assumptions C29_empty_scatter_nested_refuted.
 Print Assumptions C29_scatter_network_dot_partial.
+Print Assumptions C29_scatter_network_flat_partial.
+Print Assumptions C29_scatter_network_nested_partial.
